@@ -1,4 +1,5 @@
-(* (The mirror of RelHandlesP.v for the liberal development: RelHandlesAll.v, RelLiveAll.v.)
+(* (The mirror of RelHandlesP.v for the liberal development: RelHandlesAll.v, RelLiveAll.v; and, with no
+   counterpart there, operands obtained by parsing: EParsed / RParsed, RelLiveAllParsed.v.)
    C11, handles obtained at ANY earlier time (RelHandlesAll.v): the register machine of RelEdit.v, variant
    fixed (= with proposed_fixes/C11-10: every edit is an in-place splice), run on ANY program of
    operations through arbitrary registers, refines the list model: the root tree stays the tree
